@@ -616,7 +616,8 @@ class DEVSSimulator(Simulator[TIME], Generic[TIME]):
                     or self.eventlist().is_empty()):
                 if self._run_until_time > self._simulator_time:
                     self._simulator_time = self._run_until_time
-                self._replication_state = ReplicationState.ENDING
+                if self._simulator_time >= self._replication.end_sim_time:
+                    self._replication_state = ReplicationState.ENDING
                 self._run_state = RunState.STOPPING
                 return;
             # get the first event
